@@ -22,6 +22,29 @@ CHECKS = {
         ref="6/C06"),
 }
 
+CHECKS["C05"] = dict(
+    technique="Coq proof (simulation: write-through cache over a dictionary-like store refines the dictionary, for all histories/budgets) + differential execution of real backends against the dictionary spec inside Coq + AST source facts",
+    text="Theorem cache_layer_refines_dict (Storage/LayerProofs.v): StorageBackendBase with a MemoryCache of any budget answers every operation of every history exactly as the dictionary keyed by (qualified name, arg hash), "
+         "instantiated with the facts extracted from the current source (FactsOK); prefix_scope makes f/f1 and #1/#10 safe. The filesystem (shared / separate metadata path, with / without cache) and memory backends are run on generated histories "
+         "and fixed scenarios; every answer, the cache's usage / resident set and store touches are compared with the model by vm_compute.",
+    note="The data-source stack below the cache (directory tree emulation of versioned objects, metadata paths) is represented by its dictionary specification in the theorem and tied to the code by differential execution only. "
+         "Hypothesis wfop: qualified names contain no '/'. Reads go through a freshly fetched memento, as the runner does.",
+    ref="6/C05")
+CHECKS["C07"] = dict(
+    technique="Coq proof (invariants of the content-addressed versioned store by induction over histories) + whole-store scan after every operation compared with the model's object table by vm_compute",
+    text="Theorems over Storage/VStore.v for every history: bytes under a content key hash to it (digest = arbitrary function, no injectivity assumed), a content key never has two versions, stored objects are never modified or removed "
+         "by later memoizes / override-key rewrites / null-with-override / forgets of calls and functions, a memento keeps reading its bytes, forget deletes nothing from the data store. The real filesystem backends are driven with shared override keys "
+         "and repeated contents; after every step all files are re-hashed and the object table is compared with the model.",
+    note="Fault-free histories (crash points are C08). uuid4 freshness is an oracle (version counter). forget_everything on a shared data/metadata tree removes the data as well (by design of the recursive delete) and is excluded from immutability.",
+    ref="6/C07")
+CHECKS["C19"] = dict(
+    technique="Coq proof (read-only step never changes the stored dictionary; reads refine the dictionary) + audit-hook / tree-snapshot observation of real read-only, null-storage and null-runner configurations compared with the model",
+    text="Theorem readonly_never_writes_and_reads_as_dict (all histories, any cache budget): memoize is skipped, forgets and metadata writes are rejected, reads answer as the dictionary, the stored state is unchanged. "
+         "Implementation: pre-populated stores reopened read-only five ways (argument / config / registry, with / without cache) under random histories; every operation's file-system audit events and a full tree re-hash must show no mutation; "
+         "function-level call sequences through read-only, null-storage and null-runner clusters with execution traces.",
+    note="File-system mutation is observed via CPython audit events plus re-hashing the tree; writes bypassing both (e.g. from C extensions) would be missed. force_local() is outside the null-runner claim.",
+    ref="6/C19")
+
 NOT_YET = {}
 
 
